@@ -151,6 +151,9 @@ func checkServerTrace(cs *srvCase, tr *srvTrace) *verdict {
 			} else if w == "failure" && g == "disconnect" {
 				// the failure that exhausts MaxAuthTries is reported by the disconnect
 				v.class("limit:disconnect-instead-of-failure")
+			} else if malformedSrc(invs) || (lastPK != nil && malformedSrc([]inv{*lastPK})) {
+				// the harness matcher skips malformed entries, the server may refuse the list
+				v.class("refused:malformed-source-address-entry")
 			} else {
 				v.soft(fmt.Sprintf("model=%s,server=%s", w, g))
 			}
@@ -170,6 +173,17 @@ func checkServerTrace(cs *srvCase, tr *srvTrace) *verdict {
 	}
 	v.Key = strings.Join(keyParts, ";")
 	return v
+}
+
+func malformedSrc(invs []inv) bool {
+	for _, i := range invs {
+		if i.PermsOut != nil {
+			if l, ok := i.PermsOut.CriticalOptions["source-address"]; ok && ra.SourceAddressMalformed(l) {
+				return true
+			}
+		}
+	}
+	return false
 }
 
 func firstWords(s string) string {
